@@ -183,7 +183,7 @@ def oracle (text : List UInt8) (impl : List String) : String :=
 
 def run (a impl : List String) : String :=
   match a with
-  | [h, ex] => match hexDecode h with
+  | h :: ex :: _ => match hexDecode h with   -- an optional third field names the generator class
     | some s =>
       let exportName := if ex == "1" then some [120] else none
       outcome (parseIso s exportName) ++ "\t" ++ oracle s impl
